@@ -16,9 +16,14 @@ class SecureRandomTransformer(LibcstResultTransformer, NameResolutionMixin):
         self.remove_unused_import(original_node)
         self.add_needed_import("secrets")
 
-        if self.find_base_name(original_node.func) == "random.choice":
-            return self.update_call_target(updated_node, "secrets")
-        return self.update_call_target(updated_node, "secrets.SystemRandom()")
+        base_name = self.find_base_name(original_node.func)
+        # the function's own name: the call may go through an alias (`from random import randint as ri`)
+        func_name = base_name.split(".")[-1] if base_name else None
+        if base_name == "random.choice":
+            return self.update_call_target(updated_node, "secrets", new_func=func_name)
+        return self.update_call_target(
+            updated_node, "secrets.SystemRandom()", new_func=func_name
+        )
 
 
 SecureRandom = CoreCodemod(
